@@ -482,7 +482,7 @@ func execute(c *c2Case, domain string, stls *xmpp.StreamFeature) (observed, []nx
 	var pmsg string
 	done := hx.WithTimeout(watchdog, func() {
 		pmsg = hx.Catch(func() {
-			sess, err = xmpp.NewSession(context.Background(), jid.MustParse(domain), jid.MustParse("me@"+domain), a, xmpp.SessionState(c.Bits), neg)
+			sess, err = xmpp.NewSession(context.Background(), jid.MustParse("srv."+domain), jid.MustParse("me@"+domain), a, xmpp.SessionState(c.Bits), neg)
 		})
 	})
 	var o observed
@@ -612,7 +612,7 @@ func oracle(c *c2Case, domain string, o *observed) [][2]string {
 		fail(o.Class, "negotiation "+o.Class+": "+o.ErrText)
 	}
 	// whatever the outcome: no state bit is gained while the stream is in clear text
-	if !o.Proceed && o.Bits != c.Bits && o.Class != "timeout" && o.Class != "panic" {
+	if !o.Proceed && o.Bits != c.Bits && o.Class == "err" {
 		fail("ready-in-clear/bits-gained", fmt.Sprintf("state went from %d to %d although the peer never said <proceed/>", c.Bits, o.Bits))
 	}
 	// 4. clear text pipelined behind <proceed/> is never parsed: the marker
@@ -947,9 +947,9 @@ func main() {
 			cc := c
 			x.run(&cc)
 		}
-		n := 300
+		n := 700
 		if o.Thorough() {
-			n = 1500
+			n = 4000
 			exhaustive(x)
 		}
 		if o.Search {
